@@ -91,6 +91,49 @@ def geometry_histories(tier):
     return out
 
 
+def geometry2_histories(tier):
+    """broadcast shapes and operand order of elementwise operators, PAD amounts alone and in front of kernels, MEAN axes, transposed convolution geometries"""
+    quick = tier == "quick"
+    out = []
+
+    def add(start, steps):
+        h = dict(start=(list(start[0]), start[1]), steps=list(steps))
+        if nets.build(h, 0) is not None:
+            out.append(h)
+
+    S8, SU, S16 = ((1, 8, 8, 8), "int8"), ((1, 3, 5, 17), "uint8"), ((1, 16, 16, 8), "int16")
+    for st in ((S8, SU) if quick else (S8, SU, S16, ((1, 1, 1, 32), "int8"), ((1, 1, 9, 3), "int8"))):
+        for op in ("ADD", "SUB", "MUL", "MINIMUM", "MAXIMUM"):
+            for code in ("f", "c", "w", "h", "hw", "o", "s"):
+                for order in "xk":
+                    add(st, ["ewg.%s.%s.%s" % (op, code, order)])
+                    if not quick:
+                        add(st, ["relu", "ewg.%s.%s.%s" % (op, code, order), "conv1x1"])
+    after = ([], ["convg.k3x3.s1x1.V.c8"], ["maxg.k2x2.s2x2.V"], ["avgg.k3x3.s1x1.V"], ["dwg.k3x3.s2x2.V"])
+    rng = (0, 1, 2)
+    for st in ((((1, 6, 7, 3), "int8"),) if quick else (((1, 6, 7, 3), "int8"), ((1, 8, 8, 8), "uint8"))):
+        for t_ in rng:
+            for b_ in rng:
+                for l_ in rng:
+                    for r_ in rng:
+                        if quick and (t_ + b_ + l_ + r_) % 2:
+                            continue
+                        for a in after:
+                            add(st, ["padg.t%db%dl%dr%d" % (t_, b_, l_, r_)] + a)
+    for st in (S8, ((1, 7, 33, 3), "uint8"), S16, ((1, 1, 9, 8), "int8"), ((1, 33, 1, 8), "int8"), ((2, 4, 4, 8), "int8"), ((1, 65, 65, 4), "int8")):
+        for axes in ("1", "2", "12", "3", "13", "23", "123"):
+            for kd in "kd":
+                add(st, ["meang.a%s.%s" % (axes, kd)])
+                if not quick:
+                    add(st, ["conv1x1", "meang.a%s.%s" % (axes, kd)])
+    for st in (((1, 4, 4, 8), "int8"), ((1, 1, 5, 3), "uint8"), ((1, 7, 3, 16), "int8")):
+        for k in (2, 3, 4):
+            for s_ in (1, 2):
+                for pad in "SV":
+                    add(st, ["tconvg.k%d.s%d.%s" % (k, s_, pad)])
+    return out
+
+
 def default_plan(tier, scale=1.0):
     mids = ["tap", "branch_cpu", "branch_npu"]
     big = [((1, 32, 32, 16), "int8")]
@@ -118,7 +161,7 @@ def default_plan(tier, scale=1.0):
                 ("cpualias4xC2", cpualias, "c2"),
                 ("G1xCZ", nets.STARTS_Q[:2], nets.SIGMA_Q, 1, "cZ"),
                 ("regblockdepxCP", reg_blockdep, "cP"), ("regtilepadxC8", reg_tilepad, "c8"), ("regupcascadexC8", reg_upcascade, "c8"), ("regifacexC2", reg_iface, "c2"),
-                ("geometryxC1", geometry_histories(tier), "c1"),
+                ("geometryxC1", geometry_histories(tier), "c1"), ("geometry2xC1", geometry2_histories(tier), "c1"),
                 ("perfcascade3xCP", histories(big, perf_ops, 3), "cP")]
     return [("G1xC24", nets.STARTS_T, nets.SIGMA_T, 1, "c24"),
             ("resizefirstxCR", resize_first + [dict(start=([1, 16, 16, 8], "int8"), steps=h["steps"]) for h in resize_first], "cR"),
@@ -126,7 +169,7 @@ def default_plan(tier, scale=1.0):
             ("G2xC8", nets.STARTS_Q, nets.SIGMA_Q, 2, "c8"),
             ("chain3xC4", nets.STARTS_Q[:2], nets.SIGMA_C, 3, "c4"),
             ("perfcascade3xCP", histories(big + [((1, 48, 48, 8), "int8")], nets.SIGMA_C, 3), "cP"),
-            ("geometryxC2", geometry_histories(tier), "c2"), ("cpualias4xC8", cpualias, "c8"), ("G1xCZ", nets.STARTS_T, nets.SIGMA_T, 1, "cZ"),
+            ("geometryxC2", geometry_histories(tier), "c2"), ("geometry2xC4", geometry2_histories(tier), "c4"), ("cpualias4xC8", cpualias, "c8"), ("G1xCZ", nets.STARTS_T, nets.SIGMA_T, 1, "cZ"),
             ("fork3xC8", fork_histories(nets.STARTS_Q, nets.SIGMA_C + ["cpu_neg", "concat", "split"], mids, nets.SIGMA_C + ["cpu_neg", "concat", "reshape"]), "c8")]
 
 
